@@ -62,6 +62,10 @@ H("lemma_spec_honest_agreement", "h_lemmas::lemma_spec_honest_agreement",
   "password 2, credential id 2, context 2 bytes, client identity absent, all nonces and keys symbolic; blinds 3 and 5",
   covers=["agreement"], lemma=True, timeout=3600, mem_gb=30, also_depends=["spec_steps.rs"])
 H("lemma_spec_honest_agreement_explicit_idu", "h_lemmas::lemma_spec_honest_agreement_explicit_idu", "R1 with an explicit 2-byte client identity", "as R1", covers=["agreement"], lemma=True, timeout=3600, mem_gb=30, also_depends=["spec_steps.rs"])
+H("lemma_spec_credentials_roundtrip", "h_lemmas::lemma_spec_credentials_roundtrip", "R1a: reference Store -> mask -> unmask -> Recover returns the registered client key, export key and the setup's public key",
+  "default identities; OPRF output, nonces, server key symbolic", covers=["agreement"], lemma=True, timeout=2400, mem_gb=16, also_depends=["spec_steps.rs"])
+H("lemma_spec_ke_agreement", "h_lemmas::lemma_spec_ke_agreement", "R1b: reference 3DH: consistent key pairs + same transcript hash => same session key and MAC keys on both sides",
+  "all four private keys and the transcript hash symbolic", covers=["agreement"], lemma=True, timeout=2400, mem_gb=16)
 H("lemma_spec_prefix_injective", "h_lemmas::lemma_spec_prefix_injective",
   "R2: the 2-byte-length-prefixed encoding of (context, id_u, id_s) is injective", "all splits of 6 symbolic bytes", covers=["different splits"], lemma=True)
 
@@ -207,6 +211,13 @@ for n, d in (("ctx0_default_ids", "empty context, default identities"), ("ctx2_e
     H("s10w_generate_ke3_" + n, "verif_kani_tripledh::s10w_generate_ke3_" + n,
       "TripleDh::generate_ke3 with derive_3dh_keys replaced by its reference (S11): Ok <=> received MAC == MAC(Km2, Hash(preamble)); session key; client MAC over Hash(preamble||server_mac); else InvalidLoginError",
       d + "; request, response, KE2 message, client state, keys symbolic", covers=["accept", "reject"], loops=SLICE_LOOPS + KEYLOOPS, timeout=5400, mem_gb=50)
+for n, d in (("ctx0_default_ids", "empty context, default identities"), ("ctx2_explicit_idu", "2-byte context, explicit 1-byte client identity")):
+    H("s10p_generate_ke2_" + n, "verif_kani_tripledh::s10p_generate_ke2_" + n,
+      "TripleDh::generate_ke2 (derive_3dh_keys stubbed by its reference S11; iterator arguments monomorphised as single slices): fresh nonce/ephemeral key, preamble over context, identities, request, response, nonce, key share; server MAC; pending state",
+      d + "; request, response, keys, tape symbolic", covers=["reached"], loops=SLICE_LOOPS + KEYLOOPS, timeout=2700, mem_gb=44, stretch=True)
+    H("s10p_generate_ke3_" + n, "verif_kani_tripledh::s10p_generate_ke3_" + n,
+      "TripleDh::generate_ke3 (derive_3dh_keys stubbed by its reference S11; iterator arguments monomorphised as single slices): Ok <=> received MAC == MAC(Km2, Hash(preamble)); session key; client MAC over Hash(preamble||server_mac); else InvalidLoginError",
+      d + "; request, response, KE2 message, client state, keys symbolic", covers=["accept", "reject"], loops=SLICE_LOOPS + KEYLOOPS, timeout=2700, mem_gb=40, stretch=True)
 H("s10_expand_label_limits", "verif_kani_tripledh::s10_expand_label_limits", "hkdf_expand_label == RFC Expand-Label; 256-byte context refused",
   "context 8 symbolic bytes / 256 bytes", covers=["ok", "256 refused"], timeout=1800, mem_gb=18)
 
@@ -238,16 +249,23 @@ for n, d in (("default_ids", "identities absent"), ("explicit_ids", "client id 2
 for n, d in (("default_ids", "identities and context absent"), ("explicit_ids_ctx", "client id 2, server id 1, context 2 bytes"), ("mixed_ids", "client empty, server absent, context 2 bytes")):
     H("w3_client_login_finish_" + n, "h_wire::w3_client_login_finish_" + n,
       "ClientLogin::finish == RFC 9807 RecoverCredentials + AuthClientFinalize wiring: reflected value refused; KSF forwarded; unmask/envelope failure => InvalidLoginError and no key exchange; 3DH gets request, response head, KE2, own state, unmasked server key, recovered client key, effective identities, context; outputs = KE outputs + recovered export key + unmasked server key",
-      d + "; 69-byte state, 117-byte response, password(2), KSF behaviour, KE outcome symbolic", covers=["ok", "reflected", "ksf failure", "invalid login", "mac rejected"], loops=DRAIN + KEYLOOPS, timeout=2400, mem_gb=14, **WDEP)
+      d + "; 69-byte state, 117-byte response, password(2), KSF behaviour, KE outcome symbolic", covers=["ok", "reflected", "ksf failure", "invalid login", "mac rejected"], loops=DRAIN + KEYLOOPS, timeout=2400, mem_gb=20, **WDEP)
+for n, what in (("w3a_login_finish_decision", "decision part: reflected value refused; KSF instance forwarded and used once; Ok only if credential recovery succeeds and the key exchange accepts; unmask/envelope failure and rejected MAC => InvalidLoginError, no key exchange on unrecoverable credentials"),
+                ("w3b_login_finish_outputs", "output part: export key == recovered one, server public key == unmasked one, session key and finalization == the key exchange's outputs"),
+                ("w3c_login_finish_ke_args", "key-exchange argument part: own request, response head, KE2, own state, unmasked server key, recovered client key, effective identities, context")):
+    H(n, "h_wire::" + n, "ClientLogin::finish wiring (one of three parallel harnesses over the same run) — " + what,
+      "identities/context absent (a, b) or explicit (c); 69-byte state, 117-byte response, password(2), KSF behaviour, KE outcome symbolic",
+      covers=(["reflected", "ksf failure", "invalid login", "mac rejected"] if n.startswith("w3a") else ["ok"]), loops=DRAIN + KEYLOOPS, timeout=1500, mem_gb=20, **WDEP)
+W3Q = ["w3a_login_finish_decision", "w3b_login_finish_outputs", "w3c_login_finish_ke_args"]
 for n, d in (("record", "registered user, no ids/context, credential id 2 bytes"), ("record_ids_ctx", "registered user, explicit ids and context, empty credential id"),
              ("unregistered", "no password file, credential id 2 bytes"), ("unregistered_ids_ctx", "no password file, server id empty, context")):
     H("w2_server_login_start_" + n, "h_wire::w2_server_login_start_" + n,
       "ServerLogin::start == RFC 9807 CreateCredentialResponse + AuthServerRespond wiring: evaluation under the per-credential key; fresh masking nonce (and fake masking key) from the RNG; masked = pad XOR (setup public key || record envelope); fake record for None; 3DH gets request, response head, client key (fake key for None), the setup's static key, effective identities, context",
-      d + "; setup, record, request, KE results, tape symbolic", covers=["ok", "key exchange failure"], loops=DRAIN + KEYLOOPS, timeout=2400, mem_gb=14, **WDEP)
+      d + "; setup, record, request, KE results, tape symbolic", covers=["ok", "key exchange failure"], loops=DRAIN + KEYLOOPS, timeout=2400, mem_gb=20, **WDEP)
 for n in ("external_key", "external_key_unregistered"):
     H("w2_server_login_start_" + n, "h_wire::w2_server_login_start_" + n,
       "ServerLogin::start with an externally held static key: same response/state; exactly one public_key and one diffie_hellman call; key never serialized; failure at either call => the key's own Custom error, no response",
-      "failure at call 0(never)/1/2/3", covers=["ok", "public_key failure", "diffie_hellman failure"], loops=DRAIN + KEYLOOPS, timeout=2400, mem_gb=14, **WDEP)
+      "failure at call 0(never)/1/2/3", covers=["ok", "public_key failure", "diffie_hellman failure"], loops=DRAIN + KEYLOOPS, timeout=2400, mem_gb=20, **WDEP)
 
 # ---- C12 tier: the same harnesses with CBMC's pointer / bounds / division checks on (Rust's own panic checks are
 # always on): no reachable panic, unwrap on None/Err, unreachable!, overflow, out-of-bounds, invalid pointer
@@ -269,7 +287,7 @@ W3 = ["w3_client_login_finish_default_ids", "w3_client_login_finish_explicit_ids
 S9W = ["s9w_seal_default_ids", "s9w_seal_explicit_ids", "s9w_seal_server_only", "s9w_seal_client_only",
        "s9w_open_default_ids", "s9w_open_explicit_ids", "s9w_open_client_empty", "s9w_open_server_only"]
 S9U = ["s9_open_raw_exact", "s9_seal_raw", "s9_construct_aad_order", "s9_keys_internal"]
-S10 = ["s10w_generate_ke2_ctx0_default_ids", "s10w_generate_ke2_ctx2_explicit_idu", "s10w_generate_ke3_ctx0_default_ids", "s10w_generate_ke3_ctx2_explicit_idu"]
+S10 = ["s10p_generate_ke2_ctx0_default_ids", "s10p_generate_ke3_ctx0_default_ids"]
 S6 = ["s6_pwd_key_len3", "s6_pwd_key_len0", "s6_default_explicit_eq_none", "s6_pwd_too_long"]
 S12 = ["s12_i2osp_all_usize", "s12_input_from_all_lengths", "s12_input_from_label", "s12_identifiers_defaulting"]
 LEMMAS = ["lemma_hash_eq", "lemma_hmac_eq", "lemma_hkdf_eq", "lemma_hkdf_pad42", "lemma_stub_clone_from_slice", "engine_selftest_ga_copy"]
@@ -284,22 +302,22 @@ S12 = S12 + ["s12_mac_update_iter_long", "s12_digest_chain_iter_long"]
 
 PROPERTIES["C01"] = dict(
     quick=SELF + ["s2_client_reg_start_pw2", "s3_client_login_start_pw2", "s4_server_reg_start_cred2", "c03_server_finish_exact",
-                  "w1_client_reg_finish_default_ids", "w2_server_login_start_record", "w3_client_login_finish_default_ids"],
-    thorough=["lemma_spec_honest_agreement", "s2_client_reg_start_pw0", "s3_client_login_start_pw0", "s4_server_reg_start_cred0"] + W1[1:] + W2[1:] + W3[1:]
+                  "w1_client_reg_finish_default_ids", "w2_server_login_start_record"] + W3Q,
+    thorough=["lemma_spec_ke_agreement", "w3_client_login_finish_default_ids", "s2_client_reg_start_pw0", "s3_client_login_start_pw0", "s4_server_reg_start_cred0"] + W1[1:] + W2[1:] + W3[1:]
              + S6[:2] + ["s7_oprf_key_from_seed", "s8_mask_response", "s8_unmask_response"] + S9U + S9W + S10 + ["s11_derive_3dh_keys"] + LEMMAS,
     assumptions=["each of the eight public steps equals the RFC 9807 step from an arbitrary valid state (S2-S4, S1, W1-W3 with the crate-private units replaced by references proved equal in S6-S11); honest agreement of the composed reference is lemma R1; the algebra of the 20 real suites (DH commutes, unblinding inverts blinding) is not encoded",
                  "production build: the harnesses compile opaque-ke without cfg(test), so the production blind() branch and result tuples are what is executed"])
 PROPERTIES["C02"] = dict(
-    quick=SELF + S6[:2] + ["s6_pwd_too_long", "s2_client_reg_start_pw2", "w3_client_login_finish_default_ids"],
-    thorough=W3[1:] + ["s3_client_login_start_pw0", "s3_client_login_start_pw2", "s8_unmask_response", "s9_open_raw_exact"] + S9W[4:] + S10[2:] + ["lemma_hmac_eq"],
+    quick=SELF + S6[:2] + ["s6_pwd_too_long", "s2_client_reg_start_pw2", "s3_client_login_start_pw2", "w3a_login_finish_decision"],
+    thorough=W3 + W3Q[1:] + ["s3_client_login_start_pw0", "s3_client_login_start_pw2", "s8_unmask_response", "s9_open_raw_exact"] + S9W[4:] + S10[1:] + ["lemma_hmac_eq"],
     assumptions=[CRYPTO_NOTE, "passwords of 0..3 bytes symbolically; the 65536-byte refusal separately; other lengths are outside the bound"])
 PROPERTIES["C03"] = dict(
     quick=SELF + ["c03_server_finish_exact", "d_cred_fin", "d_server_login"],
     thorough=["lemma_hmac_eq", "d_all_cred_fin", "d_all_server_login"],
     assumptions=["the server accepts exactly HMAC(km3, transcript hash) of its own pending state — proved for every 24-byte state and every 8-byte finalization; that another session's MAC differs is unforgeability of HMAC (not decided)"])
 PROPERTIES["C04"] = dict(
-    quick=SELF + ["w3_client_login_finish_default_ids", "d_cred_resp", "s9_open_raw_exact"],
-    thorough=S10[2:] + ["s8_unmask_response"] + W3[1:] + S9W[4:] + ["lemma_spec_prefix_injective"],
+    quick=SELF + W3Q + ["d_cred_resp", "s9_open_raw_exact"],
+    thorough=S10[1:] + ["s8_unmask_response"] + W3 + S9W[4:] + ["lemma_spec_prefix_injective"],
     assumptions=[CRYPTO_NOTE])
 PROPERTIES["C05"] = dict(
     quick=SELF + S12 + ["s9_construct_aad_order", "s7_oprf_key_from_seed", "s10_expand_label_limits", "lemma_spec_prefix_injective"],
@@ -310,8 +328,8 @@ PROPERTIES["C06"] = dict(
     thorough=W3 + S9W + ["s8_mask_response", "s8_unmask_response"],
     assumptions=[CRYPTO_NOTE])
 PROPERTIES["C08"] = dict(
-    quick=SELF + ["s13_dummy_record", "w2_server_login_start_unregistered", "w3_client_login_finish_default_ids", "c03_server_finish_exact", "d_cred_resp"],
-    thorough=["w2_server_login_start_unregistered_ids_ctx", "w2_server_login_start_external_key_unregistered", "w2_server_login_start_record"] + W3[1:],
+    quick=SELF + ["s13_dummy_record", "w2_server_login_start_unregistered", "w3a_login_finish_decision", "c03_server_finish_exact", "d_cred_resp"],
+    thorough=["w2_server_login_start_unregistered_ids_ctx", "w2_server_login_start_external_key_unregistered", "w2_server_login_start_record"] + W3,
     assumptions=["'unpredictably' and 'the client always fails on a fake response' are probabilistic statements and are not decided; decided: the fake record (fresh masking key, zero envelope, fake key), the same evaluation function and code path as for a registered user, the error mapping to InvalidLoginError, and exactness of the server's final check"])
 PROPERTIES["C09"] = dict(
     quick=SELF + ["s7_oprf_key_from_seed", "s4_server_reg_start_cred2", "s2_client_reg_start_pw2", "s9_seal_raw", "s10_expand_label_limits", "g3_x25519_derive", "s14_derive_auth_keypair_loop"],
@@ -342,20 +360,20 @@ PROPERTIES["C14"] = dict(
     thorough=W1 + W2[:3] + ["s3_client_login_start_pw2"],
     assumptions=[CRYPTO_NOTE, "obliviousness is decided as data flow: the blind is the tape value and occurs in no output other than request = blind*H(pw); the password-derived secrets equal a reference that does not mention the blind"])
 PROPERTIES["C15"] = dict(
-    quick=SELF + S6 + ["w1_client_reg_finish_default_ids", "w3_client_login_finish_default_ids"],
-    thorough=W1[1:] + W3[1:],
+    quick=SELF + S6 + ["w1_client_reg_finish_default_ids", "w3a_login_finish_decision"],
+    thorough=W1[1:] + W3 + W3Q[1:],
     assumptions=["the Argon2 adapter (ksf.rs:38-47) is memory-hard by construction and is not encoded; the model KSF records its calls, argument and instance and returns a symbolic output or an error"])
 PROPERTIES["C16"] = dict(
-    quick=SELF + ["s9_seal_raw", "s9_open_raw_exact", "s9w_seal_client_only", "s9w_seal_server_only", "w1_client_reg_finish_default_ids", "w3_client_login_finish_default_ids"],
-    thorough=S9W + W1[1:] + W3[1:] + ["lemma_spec_honest_agreement"],
+    quick=SELF + ["s9_seal_raw", "s9_open_raw_exact", "s9w_seal_client_only", "s9w_seal_server_only", "w1_client_reg_finish_default_ids", "w3b_login_finish_outputs"],
+    thorough=S9W + W1[1:] + W3 + W3Q,
     assumptions=[CRYPTO_NOTE, "'no secret appears verbatim in any message' is covered only in the sense that every message byte is a specified function (C09) none of which is the export key, session key or password"])
 PROPERTIES["C17"] = dict(
     quick=SELF + ["s2_client_reg_start_pw2", "s3_client_login_start_pw2", "s5_server_setup_new", "s13_dummy_record", "s9w_seal_server_only", "w2_server_login_start_unregistered"],
     thorough=["s2_client_reg_start_pw0", "s3_client_login_start_pw0", "s9w_seal_client_only", "s9w_seal_default_ids"] + S10[:2] + W2 + W1[:1],
     assumptions=["determinism: symbolic execution has no entropy source other than the tape (an OS RNG call would surface as a missing foreign function); freshness: every random value equals a fixed function of its own tape segment, segments are disjoint and all drawn bytes are accounted for; statistical independence is not decided"])
 PROPERTIES["C18"] = dict(
-    quick=SELF + ["s4_server_reg_start_external_key", "s11_derive_3dh_keys_external", "w2_server_login_start_external_key", "d_setup_xk"],
-    thorough=["w2_server_login_start_external_key_unregistered", "d_all_setup_xk"],
+    quick=SELF + ["s4_server_reg_start_external_key", "w2_server_login_start_external_key", "d_setup_xk"],
+    thorough=["s11_derive_3dh_keys_external", "w2_server_login_start_external_key_unregistered", "d_all_setup_xk"],
     assumptions=["the external key is the model MSecretKey (2-byte handle, call log, failure at the n-th call with a caller-chosen code)"])
 PROPERTIES["C19"] = dict(
     quick=SELF + ["g1_x25519_sk_decode", "g1_x25519_sk_lengths", "g3_x25519_derive", "g2_x25519_pk_roundtrip", "g5_p256_sk_decode", "g4_ristretto_lengths_identity", "g4_ristretto_sk_decode", "g4_ristretto_sk_boundaries", "s14_derive_auth_keypair_loop"],
